@@ -250,6 +250,21 @@ fn build_as(c: &BuildCase, obs: &mut Obs) -> CheckResult {
         let got: Vec<u32> = s1.iter_asns().map(|a| a.into_u32()).collect();
         ensure!(got == items, "iter_asns() yields {} items, expected {}", got.len(), items.len());
         obs.label("iterated");
+        if items.len() <= 200 {
+            // (no adaptor between the library's iterator and the laws: Map and friends fall back
+            // to next() and would hide an overridden nth / count / last)
+            crate::iterlaws::check("AsBlocks::iter_asns()", "c03:iterator-laws", 256, || s1.iter_asns())?;
+        }
+    }
+    // per-item membership through the iterators' adaptors (nth, skip, step_by, last, count,
+    // size_hint) as well: they must agree with what next() yields, also for blocks at the ends
+    // of the number space
+    crate::iterlaws::check("AsBlocks::iter()", "c03:iterator-laws", 64, || s1.iter())?;
+    for (b, &(lo, hi)) in s1.iter().zip(m.ranges()).take(3).chain(s1.iter().zip(m.ranges()).skip(3).last()) {
+        let len = hi as u64 - lo as u64 + 1;
+        crate::iterlaws::check_jump("AsBlock::iter()", "c03:iterator-laws", len, 4096, |k| asn(lo + k as u32), || b.iter())?;
+        crate::iterlaws::check_jump("AsBlock::into_iter()", "c03:iterator-laws", len, 64, |k| asn(lo + k as u32), || b.into_iter())?;
+        obs.label_if(hi == u32::MAX && len <= 4096, "iter-laws-at-max");
     }
     Ok(())
 }
@@ -290,6 +305,7 @@ fn build_ip(c: &BuildCase, obs: &mut Obs) -> CheckResult {
 
     let s1: IpBlocks = blocks.iter().copied().collect();
     check_ip("IpBlocks::from_iter", fam, &s1, &m)?;
+    crate::iterlaws::check("IpBlocks::iter()", "c03:iterator-laws", 64, || s1.iter())?;
     let mut b = IpBlocksBuilder::new();
     for x in &blocks {
         b.push(*x);
